@@ -1178,7 +1178,10 @@ class Client():
                 if self.connector.tymeout > 0.0 and self.connector.tymer.expired:  # timed out
                     self.connector.reopen()
                     if self.respondent.evented:
-                        duration = float(self.respondent.retry) / 1000.0 # convert to seconds
+                        try:
+                            duration = float(self.respondent.retry) / 1000.0 # convert to seconds
+                        except OverflowError:  # retry from server has hundreds of digits
+                            duration = None  # reuse current duration
                     else:
                         duration = None  # reused current duration
                     self.connector.tymer.restart(duration=duration)
